@@ -52,6 +52,16 @@ package llm
 //@   call scanForInjection update screened = result0 && result2 == nil
 //@   ensures [C13.err] result1 != nil ==> result0.Verdict == "ERROR"
 //@   ensures [C13.match] result0.Verdict == "MATCH" ==> result1 == nil && screened && okEvidence(result0.Evidence)
+// and MATCH is reported only when the provider's own answer said exactly "MATCH" (the verdict is handed on as the
+// provider wrote it, never re-spelled after validation)
+//@   ghost answered bool
+//@   ghost raw string
+//@   init answered = false
+//@   call callOpenAI update answered = result1 == nil
+//@   call callOpenAI update raw = result0.Verdict
+//@   call callGemini update answered = result1 == nil
+//@   call callGemini update raw = result0.Verdict
+//@   ensures [C13.match] result0.Verdict == "MATCH" ==> answered && raw == "MATCH"
 //@   ensures [C13.unsafe] result1 == nil && !screened ==> result0.Verdict == "LIE"
 //@   ensures [C13.verdicts] result1 == nil ==> result0.Verdict == "LIE" || result0.Verdict == "SUSPICIOUS" || okVerdict(result0.Verdict)
 
